@@ -7,6 +7,7 @@ exit 2  + `UNDECIDED property=<id> reason=...`   (never an alarm)
 """
 import concurrent.futures as cf
 import glob
+import hashlib
 import json
 import os
 import re
@@ -155,7 +156,10 @@ def run_unit(unit_dir, tier, relock=False, known_ids=()):
            'info': {}, 'solver_ms': 0, 'wall': 0.0, 'functions': [], 'vacuity': {'probes': 0, 'failed_as_required': 0}}
     t0 = time.time()
     try:
-        bdir = os.path.join(BUILD, unit)
+        # runs against a scratch copy get a build directory of their own (concurrent runs on different trees must not overwrite each
+        # other's generated files); it is removed at the end of run_unit
+        scratch = os.path.realpath(vlib.REPO) != '/repo'
+        bdir = os.path.join(BUILD, unit) if not scratch else os.path.join(BUILD, '%s-%s' % (unit, hashlib.md5(os.path.realpath(vlib.REPO).encode()).hexdigest()[:8]))
         os.makedirs(bdir, exist_ok=True)
         asm = vlib.assemble(unit_dir, 'verify')
         vac = vlib.assemble(unit_dir, 'vacuity')
@@ -254,6 +258,11 @@ def run_unit(unit_dir, tier, relock=False, known_ids=()):
     elif res['undecided']:
         res['status'] = 'undecided'
     res['wall'] = time.time() - t0
+    try:
+        if os.path.realpath(vlib.REPO) != '/repo' and '--keep' not in sys.argv:
+            shutil.rmtree(os.path.join(BUILD, '%s-%s' % (unit, hashlib.md5(os.path.realpath(vlib.REPO).encode()).hexdigest()[:8])), ignore_errors=True)
+    except Exception:
+        pass
     return res
 
 
